@@ -115,6 +115,9 @@ where
         }
         for dist in [1usize, 2, 4, 7, 8, 16, 24, 32, 48, 64, 96].iter() {
             for k in 0..3 {
+                if *dist + 2 > *len {
+                    continue;
+                }
                 let pos = 1 + r.below((*len - dist - 1) as u64) as usize;
                 let v = 1 + r.below(255) as u8;
                 let mut b = vec![0u8; *len];
@@ -142,6 +145,9 @@ where
             // only two copies of the block, far apart
             let mut b = vec![0u8; *len];
             b[0] = inf0;
+            if *len < 2 * blk + 32 {
+                continue;
+            }
             let a0 = 8 * (1 + r.below(((*len - 2 * blk) / 16) as u64) as usize);
             let a1 = *len - blk - 8 * r.below(2) as usize;
             if a0 + blk <= a1 {
